@@ -615,7 +615,7 @@ impl Property for C07 {
     }
     fn runs(&self, tier: Tier) -> usize {
         match tier {
-            Tier::Quick => 20_000,
+            Tier::Quick => 60_000,
             Tier::Thorough => 400_000,
         }
     }
